@@ -146,13 +146,27 @@ func (bf *buffer) ReadFrom(r io.Reader) (int64, error) {
 			return total, io.EOF
 		}
 
-		start, cnt, err := bf.waitForWriteSpace(defaultReadBlockSize)
+		// Wait only until there is room for at least one byte, then read into
+		// as much contiguous free space as there is (at most one read block).
+		// Waiting for a whole read block would stop reading from r while a
+		// message that needs the last block of the buffer is still incomplete:
+		// the consumer waits for the rest of it, nothing is read any more, and
+		// neither a closed connection nor a read deadline is ever noticed.
+		start, _, err := bf.waitForWriteSpace(1)
 		if err != nil {
 			return 0, err
 		}
 
+		// The consumer position only moves forward, so what is free now stays
+		// free until it is committed below.
+		verifYield(112)
+		cnt := bf.size - (start - bf.cseq.get())
+		if cnt > defaultReadBlockSize {
+			cnt = defaultReadBlockSize
+		}
+
 		pstart := start & bf.mask
-		pend := pstart + int64(cnt)
+		pend := pstart + cnt
 		if pend > bf.size {
 			pend = bf.size
 		}
